@@ -942,6 +942,26 @@ def c14(ck):
     ck.run_family(Family("fault-enumeration", "ses", cases, oracle=oracle, shrink=None, decisive=False,
                          project=lambda o: [(s_["r"], s_["text"], s_["calls"]) for s_ in (parse_steps(o) or [])] or o,
                          nontrivial=lambda c, o: "err" in o, exhaustive=True))
+    # construction itself against a failing sink: Cli::new and the builder (every prompt, both constructors), every sink call they make
+    bcases = []
+    for pi in range(4):
+        for capb in (7, 8):
+            for j in range(3):
+                for mode in ("once", "perm"):
+                    bcases.append("%d 16 %d raw X:%d:%s;b:61;b:0d" % (capb, pi, j, mode))
+
+    def oracle_build(case, io):
+        st = parse_steps(io)
+        if st is None:
+            return "malformed session output / crash: " + io[:200]
+        for k_, s_ in enumerate(st):
+            if s_["r"] != "err" and ("XW" in s_["sink"] or "XF" in s_["sink"]):
+                return "sink call failed during call %d (%s) but the call returned Ok (error swallowed); sink calls: %s" % (
+                    k_, "construction" if k_ == 0 else "after construction", s_["sink"])
+        return None
+
+    ck.run_family(Family("build-faults", "ses", bcases, oracle=oracle_build, shrink=None, decisive=False, impl_only=True,
+                         nontrivial=lambda c, o: "err" in o, exhaustive=True))
     if cases_only_impl:
         ck.run_family(Family("fault-enumeration-oracle-only", "ses", cases_only_impl, oracle=oracle, shrink=None, decisive=False, impl_only=True,
                              nontrivial=lambda c, o: "err" in o, exhaustive=True))
@@ -950,7 +970,7 @@ def c14(ck):
                      "prompt change, Cli::write, set_prompt, help, help <cmd>, -h, tight buffers) and random short sessions: EVERY sink call of EVERY step fails once / permanently, "
                      "then `x` Enter with a working sink. Oracle on the implementation: the call returns Err iff a sink call failed in it; the line AND its cursor afterwards are as before / as the key "
                      "would have left them (from the fault-free run of the implementation itself) / empty; the later Enter succeeds. Result, line and later dispatches also compared with the model. "
-                     "non-trivial = some call returned Err")
+                     "build-faults: the constructors (builder and the deprecated Cli::new) against a sink that fails at each of their calls. non-trivial = some call returned Err")
 
 
 # ------------------------------------------------------------------ C01 dispatch
@@ -987,8 +1007,9 @@ def c01(ck):
     # the same with a sink that fails at arbitrary calls (once or for good) and API calls in between: whatever fails, one Enter calls the handler
     # at most once and the line is empty after a dispatch - so nothing is dispatched a second time by the next Enter
     fses = [gen.rand_session(rng, rng.choice([15, 40]), api=True, faults=True) for _ in range(n // 2)]
-    ck.run_family(Family("session-dispatch-faults", "ses", fses, oracle=oracle, decisive=False, shrink=core.shrink_ops_line(4),
-                         project=lambda o: [(s_["calls"], s_["text"], s_["cur"]) for s_ in (parse_steps(o) or [])] or o,
+    # oracle only: fault positions are sink-call numbers, so an implementation that chunks its output differently (same bytes, same screen)
+    # fails at another point of the session than the model - a comparison with the model would raise false alarms here
+    ck.run_family(Family("session-dispatch-faults", "ses", fses, oracle=oracle, decisive=False, shrink=core.shrink_ops_line(4), impl_only=True,
                          nontrivial=lambda c, o: "(" in o and "X" in o))
     return ck.finish(trusted=TB_COMMON, rule="random sessions mixing characters of every encoded length, Backspace, Left/Right, Up/Down, Tab and all four terminators at buffer sizes 0..64 "
                      "(both buffers); handler-call log (name + classified arguments) per byte, line-empty after dispatch, implementation vs model; direct oracle: at most one "
